@@ -40,6 +40,17 @@ def observe(nl):
         out["top"] = t.reference.name
     out["top_inst_name"] = t.name if t is not None else None
     extra_keys = set()
+    placed = set()
+    for lib in nl.libraries:
+        for d in lib.definitions:
+            placed.update(id(k) for k in d.children)
+    out["refs"] = {}
+    for lib in nl.libraries:
+        for d in lib.definitions:
+            rs = list(d.references)
+            out["refs"][d.name] = {"n": len(rs),
+                                   "stray": sum(1 for r in rs if id(r) not in placed and r is not t),
+                                   "top": sum(1 for r in rs if r is t)}
     for lib in nl.libraries:
         libtag = "work" if lib.name == "work" else ("prim" if lib.name == "hdi_primitives" else "lib:" + str(lib.name))
         for d in lib.definitions:
@@ -512,6 +523,19 @@ def P_parse(design, obs, wf):
                     want_dir = "INOUT" if n in [x[0] for x in bb["ins"]] else "OUT"
                     if gp.get(n) != want_dir:
                         out.append(("parse.blackbox-ports", "%s.%s is %s expected %s" % (bb["name"], n, gp.get(n), want_dir)))
+    # users of every definition: each instance in d.references is a child of some definition of the
+    # netlist or the netlist's top instance, and their number is the number of statements that
+    # instantiate d (+1 for the top model)
+    want_refs = {}
+    for e in den["insts"]:
+        want_refs[e["model"]] = want_refs.get(e["model"], 0) + 1
+    want_refs[top] = want_refs.get(top, 0) + 1
+    for dn, r in sorted((obs.get("refs") or {}).items()):
+        if r["stray"]:
+            out.append(("parse.references.stray", "definition %s is referenced by %d instance(s) that are neither placed in "
+                        "a definition of the netlist nor its top instance" % (dn, r["stray"])))
+        if r["n"] != want_refs.get(dn, 0):
+            out.append(("parse.references.count", "definition %s has %d references, expected %d" % (dn, r["n"], want_refs.get(dn, 0))))
     # every wire of every definition holds only pins of that definition (its own port pins, pins of
     # its own children)
     for c in obs["cables"]:
